@@ -17,7 +17,14 @@ import multiprocessing
 
 VERIF = os.path.dirname(os.path.dirname(os.path.abspath(__file__)))
 REPO = os.environ.get("VERIF_REPO", "/repo")
-EVIDENCE_DIR = os.path.join(VERIF, "evidence")
+# evidence of runs against anything but /repo itself (scratch worktrees with a
+# seeded change applied) never lands in the committed evidence directory
+EVIDENCE_DIR = os.environ.get(
+    "VERIF_EVIDENCE_DIR",
+    os.path.join(VERIF, "evidence")
+    if os.path.realpath(REPO) == "/repo"
+    else os.path.join(REPO, ".evidence"),
+)
 REPLAY_DIR = os.environ.get("VERIF_REPLAY_DIR", os.path.join(VERIF, "replays"))
 KNOWN_FINDINGS = os.path.join(VERIF, "known_findings.json")
 
